@@ -91,7 +91,7 @@ def plan_for(prop, tier):
                 "Android/Fuchsia fall-back paths are absent from every world; names beginning with 'libc:' are not generated (internal test-only interface)",
                 "under injected faults the oracle is relaxed to: model outcome or a clean failure (false, UTC) - never success with wrong data or a wrong name"],
             rule="part cross: the full product TZDIR(6: unset, empty, valid, nonexistent, trailing slash, relative) x TZ(14: unset, empty, X, :X, ::X, localtime, :localtime, ':', invalid, absolute, fixed-offset, UTC, file:X, :TruncNL) x LOCALTIME(5) "
-                 "x 37 names (relative, nested, absolute, file:-prefixed, empty, ':'-prefixed, UTC/UTC0/fixed and near misses, directory, unreadable, truncated (in the data, in the footer, closing newline missing), leap-second, bad magic, empty file, v1-only, real zone, trailing slash, ./, localtime), "
+                 "x 45 names (relative, nested, absolute, file:-prefixed, empty, ':'-prefixed, UTC/UTC0/fixed and near misses, directory, unreadable, truncated (in the data, in the footer, closing newline missing), leap-second, bad magic, empty file, v1-only, real zone, trailing slash, ./, localtime), "
                  "each world asking load(name), local_time_zone() and a default-constructed zone, then replayed with a different read chunk size; part random: random worlds of 1-6 ops; part faulted: random worlds with fopen errno faults by open index, "
                  "cookie read errors (EIO/EINTR, persistent or transient) by byte offset, failing seeks, FIFOs and chunk sizes 1..65536. Every world is non-trivial (it resolves at least one name); distinct = distinct (environment, ops, faults, chunk) hashes",
             stages=[
@@ -172,6 +172,8 @@ def run_enumerate(stage, prop, say):
     elif stage.get("shards", 1) > 1:
         shards = ["%d,%d" % (a, b) for a in range(k) for b in range(k)]
     limit = stage.get("limit", 50000000)
+    if stage.get("quick_limit"):
+        limit = stage["quick_limit"]
     per = max(1, limit // len(shards)) if not stage.get("shard_depth") else limit
 
     def one(prefix):
@@ -215,6 +217,11 @@ def run_enumerate(stage, prop, say):
 
 
 def execute_plan(prop, tier, seed, plan, say):
+    if tier != "thorough":
+        # Bound every enumeration in the quick tier: a different locking design can have far more schedules.
+        for st in plan["stages"]:
+            if st["kind"] == "enumerate":
+                st["quick_limit"] = 1500000 if st.get("symmetry") else 400000
     violations, machinery = [], []
     cov = dict(evaluations=0, distinct_nontrivial=0, rule=plan["rule"], samples=[], stages=[], fault_fired={}, probes={},
                components=COMPONENTS, steps_total=0,
